@@ -21,6 +21,7 @@ type shapeGen struct {
 	leafKinds []int
 	counter   int
 	reuse     bool // place the SAME inner flow object in two slots where the shape has room
+	forceN    int  // > 0: every leaf gets this retry budget (instead of alternating 1, 2)
 }
 
 // rotationOf: where in the kind list a scenario starts, so that across the scenarios of a
@@ -37,6 +38,9 @@ func rotationOf(name string) int {
 func (g *shapeGen) leaf(path string) *spec {
 	k := g.leafKinds[g.counter%len(g.leafKinds)]
 	n := 1 + g.counter%2
+	if g.forceN > 0 {
+		n = g.forceN
+	}
 	g.counter++
 	return &spec{id: fmt.Sprintf("%s:%s", path, kindShort(k)), kind: k, n: n, fb: kindIsFunc(k) && g.counter%3 == 0}
 }
